@@ -379,8 +379,8 @@ pub fn check_cmd(args: CheckArgs) -> i32 {
         let kmax = if tier == Tier::Thorough { 3 } else { 2 };
         let mut cover_bases: Vec<(&Entry, bool, usize)> = corpus.k0.iter().map(|e| (e, true, kmax)).collect();
         for (gi, e) in corpus.g.iter().enumerate() {
-            // covers of the 5- and 6-chamber extras only in the thorough tier
-            if gi >= corpus.extra_from && tier != Tier::Thorough {
+            // quick tier: of the 5- and 6-chamber extras only the known-euclidean ones (K+) get covers
+            if gi >= corpus.extra_from && tier != Tier::Thorough && !kp[gi] {
                 continue;
             }
             if kp[gi] || census_g[gi].interesting() {
